@@ -1,7 +1,7 @@
 SPECIFICATION Spec
 CONSTANTS
   Design = "grader_bookkeeping"
-  Kind = "busy"
+  Kind = "unwinder"
   MaxSteps = 2
   Inject = "base"
   Handback = "per_run"
@@ -15,4 +15,5 @@ INVARIANT OneRuntimeFb
 INVARIANT StacksEmpty
 INVARIANT NoCrash
 INVARIANT NextRunClean
+INVARIANT NextExcNone
 CHECK_DEADLOCK FALSE
